@@ -1916,6 +1916,14 @@ theorem step_refines (cfg : Cfg) (le : α → α → Bool) (s : ISet α) (h : In
   | sort rev =>
     have := sort_spec le rev s h
     exact ⟨this.1, this.2, rfl⟩
+  | sortBy lek rev bad =>
+    simp only [step, Spec.step, ISet.sortBy, ISet.sortRaises, h.toInvC.len_eq]
+    by_cases hb : (decide (2 ≤ s.toList.length) && s.toList.any fun x => bad.contains x) = true
+    · simp only [hb, if_true]
+      refine ⟨h, ?_, ?_⟩ <;> first | rfl | trivial
+    · simp only [hb]
+      have := sort_spec lek rev s h
+      exact ⟨this.1, this.2, rfl⟩
   | reverse =>
     have := reverse_spec s h
     exact ⟨this.1, this.2, rfl⟩
@@ -2025,6 +2033,7 @@ theorem step_inv (cfg : Cfg) (le : α → α → Bool) (s : ISet α) (h : Inv s)
   | pop => exact (step_refines cfg le s h .pop trivial).1
   | clear => exact (step_refines cfg le s h .clear trivial).1
   | sort rev => exact (step_refines cfg le s h (.sort rev) trivial).1
+  | sortBy lek rev bad => exact (step_refines cfg le s h (.sortBy lek rev bad) trivial).1
   | reverse => exact (step_refines cfg le s h .reverse trivial).1
   | update os => exact (step_refines cfg le s h (.update os) trivial).1
   | interUpdate os => exact (step_refines cfg le s h (.interUpdate os) trivial).1
@@ -2063,5 +2072,130 @@ theorem run_refines (cfg : Cfg) (le : α → α → Bool) : ∀ (ops : List (Op 
     rw [h3, ih.1, ih.2, h2]
     exact ⟨rfl, rfl⟩
 
+/-! ### several sets at once -/
+
+/-- a machine and its specification are in step: same cursor (inside the register file), every
+    register satisfies the invariant and iterates as the corresponding plain list -/
+structure MRel (m : Mach α) (sm : SMach α) : Prop where
+  cur : m.cur = sm.cur
+  bound : m.cur < m.regs.length
+  views : m.views = sm.regs
+  inv : ∀ s ∈ m.regs, Inv s
+
+theorem MRel.curSet_inv {m : Mach α} {sm : SMach α} (h : MRel m sm) : Inv m.curSet := by
+  unfold Mach.curSet
+  rw [List.getElem?_eq_getElem h.bound]
+  exact h.inv _ (List.getElem_mem _)
+
+theorem MRel.curSet_toList {m : Mach α} {sm : SMach α} (h : MRel m sm) : m.curSet.toList = sm.curList := by
+  unfold Mach.curSet SMach.curList
+  rw [← h.views, ← h.cur, Mach.views, List.getElem?_map, List.getElem?_eq_getElem h.bound]
+  rfl
+
+theorem resultSet_spec (o : Out α) : Inv (resultSet o) ∧ (resultSet o).toList = resultList o := by
+  cases o <;> first | exact ⟨inv_empty, rfl⟩ | exact ofList_spec _
+
+theorem mstep_refines (cfg : Cfg) (le : α → α → Bool) (m : Mach α) (sm : SMach α) (h : MRel m sm)
+    (op : MOp α) (hv : MValidOp sm op) :
+    MRel (mstep cfg le m op).1 (Spec.mstep le sm op).1 ∧ (mstep cfg le m op).2 = (Spec.mstep le sm op).2 := by
+  have hlen : sm.regs.length = m.regs.length := by rw [← h.views]; simp [Mach.views]
+  cases op with
+  | sel k =>
+    simp only [mstep, Spec.mstep, hlen]
+    by_cases hk : k < m.regs.length
+    · simp only [hk, if_true]
+      refine ⟨⟨rfl, hk, h.views, h.inv⟩, ?_⟩ <;> first | rfl | trivial
+    · simp only [hk, if_false]
+      refine ⟨h, ?_⟩ <;> first | rfl | trivial
+  | run f =>
+    simp only [MValidOp] at hv
+    rw [← h.curSet_toList, ← h.views] at hv
+    obtain ⟨h1, h2, h3⟩ := step_refines cfg le m.curSet h.curSet_inv (f m.views) hv
+    simp only [mstep, Spec.mstep]
+    rw [← h.views, ← h.curSet_toList, ← h.cur]
+    refine ⟨⟨rfl, by simpa using h.bound, ?_, ?_⟩, h3⟩
+    · show (m.regs.set m.cur _).map ISet.toList = _
+      rw [List.map_set, h2]; rfl
+    · intro s hs
+      rcases List.mem_or_eq_of_mem_set hs with hs | hs
+      · exact h.inv s hs
+      · rw [hs]; exact h1
+  | fork f =>
+    simp only [MValidOp] at hv
+    rw [← h.curSet_toList, ← h.views] at hv
+    obtain ⟨h1, h2, h3⟩ := step_refines cfg le m.curSet h.curSet_inv (f m.views) hv
+    simp only [mstep, Spec.mstep]
+    rw [← h.views, ← h.curSet_toList, ← h.cur]
+    refine ⟨⟨rfl, ?_, ?_, ?_⟩, h3⟩
+    · have := h.bound
+      simp; omega
+    · show (m.regs.set m.cur _ ++ [_]).map ISet.toList = _
+      rw [List.map_append, List.map_set, h2, h3]
+      simp [Mach.views, (resultSet_spec _).2]
+    · intro s hs
+      rcases List.mem_append.1 hs with hs | hs
+      · rcases List.mem_or_eq_of_mem_set hs with hs | hs
+        · exact h.inv s hs
+        · rw [hs]; exact h1
+      · rw [List.mem_singleton.1 hs]; exact (resultSet_spec _).1
+
+theorem mrun_refines (cfg : Cfg) (le : α → α → Bool) : ∀ (ops : List (MOp α)) (m : Mach α) (sm : SMach α),
+    MRel m sm → MValidRun le sm ops →
+    mrunOuts cfg le m ops = Spec.mrunOuts le sm ops ∧
+      MRel (mrunState cfg le m ops) (Spec.mrunState le sm ops)
+  | [], _, _, h, _ => ⟨rfl, h⟩
+  | op :: ops, m, sm, h, hv => by
+    obtain ⟨hv1, hv2⟩ := hv
+    obtain ⟨h1, h2⟩ := mstep_refines cfg le m sm h op hv1
+    have ih := mrun_refines cfg le ops _ _ h1 hv2
+    simp only [mrunOuts, mrunState, Spec.mrunOuts, Spec.mrunState]
+    exact ⟨by rw [h2, ih.1], ih.2⟩
+
+/-- registers stay inside the invariant whatever the operations and their arguments -/
+theorem mstep_inv (cfg : Cfg) (le : α → α → Bool) (m : Mach α) (h : ∀ s ∈ m.regs, Inv s)
+    (hb : m.cur < m.regs.length) (op : MOp α) :
+    (∀ s ∈ (mstep cfg le m op).1.regs, Inv s) ∧ (mstep cfg le m op).1.cur < (mstep cfg le m op).1.regs.length := by
+  have hc : Inv m.curSet := by
+    unfold Mach.curSet
+    rw [List.getElem?_eq_getElem hb]
+    exact h _ (List.getElem_mem _)
+  cases op with
+  | sel k =>
+    simp only [mstep]
+    by_cases hk : k < m.regs.length
+    · rw [if_pos hk]; exact ⟨h, hk⟩
+    · rw [if_neg hk]; exact ⟨h, hb⟩
+  | run f =>
+    simp only [mstep]
+    refine ⟨fun s hs => ?_, by simpa using hb⟩
+    rcases List.mem_or_eq_of_mem_set hs with hs | hs
+    · exact h s hs
+    · rw [hs]; exact step_inv cfg le _ hc _
+  | fork f =>
+    simp only [mstep]
+    refine ⟨fun s hs => ?_, by simp; omega⟩
+    rcases List.mem_append.1 hs with hs | hs
+    · rcases List.mem_or_eq_of_mem_set hs with hs | hs
+      · exact h s hs
+      · rw [hs]; exact step_inv cfg le _ hc _
+    · rw [List.mem_singleton.1 hs]; exact (resultSet_spec _).1
+
+theorem mrunState_inv (cfg : Cfg) (le : α → α → Bool) : ∀ (ops : List (MOp α)) (m : Mach α),
+    (∀ s ∈ m.regs, Inv s) → m.cur < m.regs.length →
+    (∀ s ∈ (mrunState cfg le m ops).regs, Inv s)
+  | [], _, h, _ => h
+  | op :: ops, m, h, hb =>
+    mrunState_inv cfg le ops _ (mstep_inv cfg le m h hb op).1 (mstep_inv cfg le m h hb op).2
+
+/-- an operation writes to the current register only (and `fork` appends one) -/
+theorem mstep_frame (cfg : Cfg) (le : α → α → Bool) (m : Mach α) (op : MOp α) (j : Nat)
+    (hj : j < m.regs.length) (hne : j ≠ m.cur) :
+    (mstep cfg le m op).1.regs[j]? = m.regs[j]? := by
+  cases op with
+  | sel k => simp only [mstep]; split <;> rfl
+  | run f => simp only [mstep]; rw [List.getElem?_set_ne (Ne.symm hne)]
+  | fork f =>
+    simp only [mstep]
+    rw [List.getElem?_append_left (by simpa using hj), List.getElem?_set_ne (Ne.symm hne)]
 
 end C11
